@@ -90,7 +90,7 @@ package data_lister
 //@   trusted
 //@   note interface method implemented over the ResourceSlice informer (external): read-only; the per-node slices of a successful listing hold no nil element
 //@   pure
-//@   ensures result1 == nil ==> forall n in result0 :: forall i int :: 0 <= i && i < len(result0[n]) ==> result0[n][i] != nil
+//@   ensures result1 == nil ==> forall n string, r **resourceapi.ResourceSlice :: n in result0 && incells(r, result0[n]) ==> *r != nil
 //@ end
 
 //@ func DataLister.ListConfigMaps
